@@ -545,14 +545,20 @@ _vbi_sampling_par_from_services_log
 		for (i = 0; i < 2; ++i)
 			if (par->first[i] > 0
 			    && par->last[i] > 0) {
+				unsigned int end;
+
+				/* End of the range so far, before start[]
+				   is lowered. start[] is a dummy as long as
+				   count[] is zero. */
+				end = (sp->count[i] > 0) ?
+					(unsigned int) sp->start[i]
+					+ sp->count[i] : 0;
+				end = MAX (end,
+					   (unsigned int) par->last[i] + 1);
 				sp->start[i] = MIN
 					((unsigned int) sp->start[i],
 					 (unsigned int) par->first[i]);
-				sp->count[i] = MAX
-					((unsigned int) sp->start[i]
-					 + sp->count[i],
-					 (unsigned int) par->last[i] + 1)
-					- sp->start[i];
+				sp->count[i] = end - sp->start[i];
 			}
 
 		rservices |= par->id;
